@@ -16,10 +16,15 @@ def resolve(parent, path):
     return tuple(out)
 
 
-def get(d, path, default=KeyError):
+_RAISE = object()
+
+
+def get(d, path, default=_RAISE):
+    """Value at `path`; a missing key raises KeyError unless a default is
+    given (the class KeyError itself may be passed as a sentinel default)."""
     for k in path:
         if not isinstance(d, dict) or k not in d:
-            if default is KeyError:
+            if default is _RAISE:
                 raise KeyError(path)
             return default
         d = d[k]
